@@ -159,6 +159,31 @@ theorem C46_rearm (c : Cfg) (s s' : State α) (b : List α) (hp : pop c s = some
       | cons _ _ => rfl
     simp [this]
 
+/-- **no loss below capacity**: a push that fits (queue + kept ≤ capacity) appends all kept alerts and
+    drops nothing — truncation happens only on overflow (`push_drops_oldest`). -/
+theorem C46_no_drop_under_cap (c : Cfg) (s : State α) (kept : List α)
+    (h : s.queue.length + kept.length ≤ c.cap) : (push c s kept).queue = s.queue ++ kept := by
+  unfold push pushQueue
+  by_cases he : kept.isEmpty
+  · simp at he; simp [he]
+  · have h1 : ¬ kept.length > c.cap := by omega
+    have h2 : ¬ s.queue.length + kept.length > c.cap := by omega
+    have he' : kept ≠ [] := by simpa using he
+    simp [h1, h2, he']
+
+/-- **pop conserves**: a pop body moves exactly its batch — the front of the queue — to the output;
+    popped ++ queued is unchanged, so `Pop` itself never loses, duplicates or reorders an alert. -/
+theorem C46_pop_conserves (c : Cfg) (s s' : State α) (b : List α) (hp : pop c s = some (b, s')) :
+    s'.out ++ s'.queue = s.out ++ s.queue ∧ s'.out = s.out ++ b ∧ s.queue = b ++ s'.queue ∧ s'.hist = s.hist := by
+  unfold pop at hp
+  by_cases hh : s.holding = 0
+  · simp [hh] at hp
+  · simp only [hh, if_false, Option.some.injEq, Prod.mk.injEq] at hp
+    obtain ⟨rfl, rfl⟩ := hp
+    simp [List.append_assoc, List.take_append_drop]
+-- non-vacuity: two fitting pushes keep everything
+example : (push ⟨4, 2⟩ (push ⟨4, 2⟩ (init : State Nat) [1, 2]) [3]).queue = [1, 2, 3] := by decide
+
 /-- Without the send in `Push` the wake-up clause is false: one push, and the queue is non-empty
     with no token and nobody holding (the seeded change "morec send removed from Push"). -/
 theorem C46_wakeup_needs_push_send :
